@@ -251,8 +251,11 @@ class PolicyGen:
         groups = []
         if kind == "names":
             ng = rng.randint(1, 6)
+            many = rng.random() < 0.08
+            if many:
+                ng = rng.choice([31, 32, 33, 40, 64, 65, 100, rng.randint(30, 130)])     # policies of very many small groups
             for _ in range(ng):
-                k = rng.choice([0, 1, 1, 2, 3, 5, 8, 20])
+                k = rng.choice([0, 1, 1, 2, 3]) if many else rng.choice([0, 1, 1, 2, 3, 5, 8, 20])
                 groups.append(dict(action=self.action(), names=rng.sample(names_all, min(k, len(names_all))), nwc=[]))
         elif kind == "single_cond":
             # C02: one group, one conditional entry, one condition
@@ -283,8 +286,13 @@ class PolicyGen:
                     groups.append(dict(action=self.action(), names=[], nwc=[dict(name=rng.choice(names_all), conds=[self.cond()])]))
         else:
             ng = rng.randint(1, 4)
+            many = kind in ("cond", "mixed") and rng.random() < 0.05
+            if many:
+                ng = rng.choice([32, 33, 40, 64, rng.randint(30, 70)])
             for _ in range(ng):
-                if kind == "cond":
+                if many:
+                    nn, nw = rng.randint(0, 2), rng.randint(0, 1)
+                elif kind == "cond":
                     nn, nw = 0, rng.randint(1, 4)
                 elif kind == "condlong":
                     nn, nw = rng.randint(0, 2), rng.randint(1, 3)
